@@ -433,7 +433,8 @@ macro_rules! implementor {
                 if s % 4 == 0 {
                     return Err(core::fmt::Error);
                 }
-                write!(f, "Imp<{:x}>", s)
+                // (says how it was asked: a plain `{:?}` must arrive as a plain `{:?}`)
+                write!(f, "Imp<{:x}>{}", s, if f.alternate() { "#" } else { "" })
             }
         }
         impl core::fmt::Display for $name {
@@ -446,7 +447,8 @@ macro_rules! implementor {
                 if s % 5 == 0 {
                     return Err(core::fmt::Error);
                 }
-                write!(f, "{}|{}", s % 1000, "")
+                let plain = !f.alternate() && f.width().is_none() && f.precision().is_none() && !f.sign_plus();
+                write!(f, "{}|{}", s % 1000, if plain { "" } else { "!" })
             }
         }
         impl AsRef<u64> for $name {
